@@ -289,6 +289,21 @@ Section Cryptobox.
     | r => ErrorReply (enc_error_uri r) (error_body codec (enc_error_uri r) (Some [note r]) (Some []) n)
     end.
 
+  (* which URI the callee binds an INVOCATION's ciphertext to.
+     protocol.py register() / _register(): the optional prefix= argument is prepended BEFORE the RegisterRequest is
+     created, so REGISTER.procedure and Registration.procedure are the same full URI — for a plain function, for a
+     function + prefix, for every @wamp.register-decorated method of an object, with or without prefix.
+     onMessage INVOCATION: proc = msg.procedure or registration.procedure (the router sends the `procedure` detail
+     only for pattern-based registrations). *)
+  Definition register_uris (prefix : option string) (procedure : string) : string * string :=
+    let full := match prefix with Some p => String.append p procedure | None => procedure end in
+    (full, full).                   (* (REGISTER.procedure on the wire, Registration.procedure kept by the session) *)
+  Definition invocation_proc (detail : option string) (registration_procedure : string) : string :=
+    match detail with Some d => d | None => registration_procedure end.
+  Definition on_invocation_registered (codec : option keyring) (prefix : option string) (procedure : string)
+             (detail : option string) (b : body) (n : nonce) : invocation_out :=
+    on_invocation codec (invocation_proc detail (snd (register_uris prefix procedure))) b n.
+
   (* protocol.py onMessage RESULT: proc = call_request.procedure *)
   Inductive result_out :=
   | Resolved (a : list V) (k : kw)
